@@ -1,7 +1,7 @@
 SPECIFICATION Spec
 CONSTANTS
   Sym = {97, 98, 32, 48}
-  MaxLen = 3
+  MaxLen = 4
   Bug = "none"
 INVARIANTS Laws EntryLaw FamilyOK
 CHECK_DEADLOCK FALSE
